@@ -19,6 +19,7 @@ package auth
 
 import (
 	"context"
+	"strings"
 
 	"oras.land/oras-go/v2/internal/syncutil"
 )
@@ -43,4 +44,19 @@ func VerifNewOnce() *VerifOnce { return syncutil.NewOnce() }
 // VerifOnceDo re-exports (*syncutil.Once).Do.
 func VerifOnceDo(o *VerifOnce, ctx context.Context, f func() (interface{}, error)) (bool, interface{}, error) {
 	return o.Do(ctx, f)
+}
+
+// VerifInFlight returns the identity of the in-flight entry (the *syncutil.Once)
+// that the concurrent cache currently holds for (registry, scheme, key), looking
+// through the single-context cache to its primary cache. ok is false when there
+// is none or the cache is of another kind.
+func VerifInFlight(c Cache, registry string, scheme Scheme, key string) (id any, ok bool) {
+	if fc, isFallback := c.(*fallbackCache); isFallback {
+		c = fc.primary
+	}
+	cc, isConcurrent := c.(*concurrentCache)
+	if !isConcurrent {
+		return nil, false
+	}
+	return cc.status.Load(strings.Join([]string{registry, scheme.String(), key}, " "))
 }
